@@ -222,7 +222,7 @@ def witnesses(tier="quick", seed=0):
     add("malformed_leading_comma", "malformed attribute syntax", "container",
         item("struct", [[", error = JsonError"]]), item("struct", [["error = JsonError"]]))
     if tier == "thorough":
-        ws += generated(seed, 220)
+        ws += generated(seed, 500)
     return ws
 
 
